@@ -109,6 +109,11 @@ func flipHash(h common.Hash, bit int) common.Hash {
 func (w *c02World) mutate(b *types.Block, parent *types.Block, now int64) string {
 	c := w.c
 	net := w.net
+	if c.Draw("mut2", 12) == 11 {
+		// at most 256 characters, but far more than 256 BYTES (the limit of the statement is in bytes)
+		b.Header.Extra = strings.Repeat("\u94fe", 86+c.Draw("mut2", 170))
+		return "extra-over-256-bytes-in-multibyte-characters"
+	}
 	switch k := c.Draw("mut", 34); k {
 	case 0:
 		var h common.Hash
@@ -334,11 +339,19 @@ func c02Scenario(c *Ctx) {
 				var sub *types.Transaction
 				boxExp := uint64(now + 1 + int64(c.Draw("hostile", 1800)))
 				kind := ""
-				switch c.Draw("hostile", 3) {
-				case 0:
+				switch hk := c.Draw("hostile", 4); {
+				case hk == 3 && len(valid.Txs) > 0:
+					// a transaction of the block once more, inside a box that comes after it
+					sub = wireCopyTx(valid.Txs[c.Draw("hostile", len(valid.Txs))])
+					if sub.Type() == params.BoxTx {
+						continue
+					}
+					boxExp = sub.Expiration()
+					kind = "box-repeats-a-transaction-of-the-block"
+				case hk == 0:
 					sub = net.SignedTransfer(net.Founder, net.Users[0].Addr, big.NewInt(7), uint64(now+1801+int64(c.Draw("hostile", 1700))), fmt.Sprintf("c02-sub-outlives-window-%d", mutants))
 					kind = "box-sub-tx-lifetime-too-long"
-				case 1:
+				case hk == 1:
 					sub = net.SignedTransfer(net.Founder, net.Users[0].Addr, big.NewInt(7), uint64(now-1-int64(c.Draw("hostile", 100))), fmt.Sprintf("c02-sub-expired-%d", mutants))
 					kind = "box-sub-tx-expired"
 				default:
@@ -464,6 +477,17 @@ func c02Scenario(c *Ctx) {
 					return
 				}
 				seen[tx.Hash()] = true
+				if tx.Type() == params.BoxTx {
+					if box, err := types.GetBox(tx.Data()); err == nil {
+						for _, st := range box.SubTxList {
+							if seen[st.Hash()] {
+								fail("tx-replay", "transaction %q is executed twice by it (standalone and/or inside boxes)", st.Message())
+								return
+							}
+							seen[st.Hash()] = true
+						}
+					}
+				}
 			}
 			for a := par; ; a = w.known[a.ParentHash()] {
 				for _, tx := range a.Txs {
